@@ -2261,7 +2261,18 @@ class Engine:
                     r = zmin(r, x) if name == "np.min" else zmax(r, x)
                 return r
             return NotImplemented
-        if name == "np.array" and len(e.args) == 1 and isinstance(e.args[0], ast.List) and not spec:
+        if name == "np.array" and len(e.args) == 1 and isinstance(e.args[0], ast.List) and not spec and len(e.keywords) == 1 \
+                and e.keywords[0].arg == "dtype" and e.args[0].elts:
+            # np.array([c0, .., ck], dtype=T) of scalars: a rank-1 array of that length holding the (cast) values
+            dt = self.dtype_of(e.keywords[0].value)
+            vals = [self.cast_scalar(self.ev(x, st, spec), dt) for x in e.args[0].elts]
+            es = V.elem_sort(dt)
+            data = V.fresh("nparr", z3.ArraySort(I, es))
+            for k, v in enumerate(vals):
+                v = z3.ToReal(v) if es == R and is_int(v) else v
+                data = z3.Store(data, k, v)
+            return Arr(data, [z3.IntVal(len(vals))], dt)
+        if name == "np.array" and len(e.args) == 1 and isinstance(e.args[0], ast.List) and not spec and not e.keywords:
             return A(0)      # np.array([a, b, c]) of scalars: the list itself (only consumed by np.min / np.max)
         if name in ("np.zeros", "np.empty", "np.ones"):
             return self.np_alloc(name, e, st, spec)
